@@ -48,6 +48,10 @@ def main():
     assert sh("git -C /repo status --porcelain").stdout.strip() == "", \
         "/repo is dirty"
     r = sh("git -C /repo apply %s" % os.path.abspath(patch))
+    # evidence/ and replays/ written while the change is applied describe the
+    # changed tree: they are put back afterwards
+    ev_backup = "/tmp/try_mutant_evidence_%d" % os.getpid()
+    shutil.copytree(os.path.join(VERIF, "evidence"), ev_backup)
     try:
         for p in props:
             env = dict(os.environ, VERIF_TIER=tier)
@@ -59,6 +63,8 @@ def main():
                                 "tier": tier}
     finally:
         sh("git -C /repo checkout -- .")
+        shutil.rmtree(os.path.join(VERIF, "evidence"))
+        shutil.move(ev_backup, os.path.join(VERIF, "evidence"))
     assert sh("git -C /repo status --porcelain").stdout.strip() == ""
     out = os.path.join(VERIF, "seeded", sid)
     os.makedirs(out, exist_ok=True)
